@@ -3,6 +3,7 @@
 package fzf
 
 import (
+	"github.com/junegunn/fzf/src/algo"
 	"github.com/junegunn/fzf/src/util"
 )
 
@@ -240,4 +241,31 @@ func VerifChunkScript(pushes int, snapAt []int, tail int, tac bool, probes []int
 		}
 	}
 	return
+}
+
+// VerifBuildPattern builds a Pattern the way core.go's patternBuilder does (fresh caches, no denylist).
+func VerifBuildPattern(fuzzy bool, v2 bool, extended bool, caseMode Case, normalize bool, forward bool, withPos bool,
+	cacheable bool, nth []Range, delimiter Delimiter, runes []rune) *Pattern {
+	fuzzyAlgo := algo.FuzzyMatchV1
+	if v2 {
+		fuzzyAlgo = algo.FuzzyMatchV2
+	}
+	return BuildPattern(NewChunkCache(), make(map[string]*Pattern), fuzzy, fuzzyAlgo, extended, caseMode, normalize, forward,
+		withPos, cacheable, nth, delimiter, revision{}, runes, map[int32]struct{}{})
+}
+
+// VerifMatchItem runs Pattern.MatchItem: matched?, the offsets, the rank points, the positions (nil if none).
+func (p *Pattern) VerifMatchItem(item *Item, withPos bool, slab *util.Slab) (bool, [][2]int32, [4]uint16, []int, bool) {
+	res, offsets, pos := p.MatchItem(item, withPos, slab)
+	if res == nil {
+		return false, nil, [4]uint16{}, nil, false
+	}
+	offs := make([][2]int32, len(offsets))
+	for i, o := range offsets {
+		offs[i] = [2]int32{o[0], o[1]}
+	}
+	if pos == nil {
+		return true, offs, res.points, nil, false
+	}
+	return true, offs, res.points, *pos, true
 }
